@@ -193,7 +193,9 @@ struct CVal {
 	int v; int moved;
 	CVal() : v(0), moved(0) { ++cc().liveVals; }
 	explicit CVal(int v_) : v(v_), moved(0) { ++cc().liveVals; }
-	CVal(int a, int b) : v(a * 1000 + b), moved(0) { ++cc().liveVals; }
+	// CVal(777, b) throws std::runtime_error before anything is counted: a mapped constructor that fails inside an emplace
+	static int orThrow(int a) { if (a == 777) throw std::runtime_error("CVal(777, b)"); return 0; }
+	CVal(int a, int b) : v(orThrow(a) + a * 1000 + b), moved(0) { ++cc().liveVals; }
 	CVal(const CVal& o) : v(o.v), moved(0) { ++cc().liveVals; ++cc().valCopies; }
 	CVal(CVal&& o) noexcept : v(o.v), moved(0) { o.moved = 1; ++cc().liveVals; ++cc().valMoves; }
 	CVal& operator=(const CVal& o) { v = o.v; moved = 0; return *this; }
